@@ -94,6 +94,32 @@ class EmbedModel(object):
         if not self.ret_paths:
             raise Inconclusive('_embed: no returning path')
 
+    def _expand_helper(self, t):
+        """the stars operand built by a small private helper (`_stars_only(outer, use_varargs, use_varkwargs)`): a helper with
+        one returning path and no effects is read as the expression it returns, with its parameters replaced by the arguments"""
+        if not (t[0] == 'C' and isinstance(t[1], str) and ':' in t[1]):
+            return t
+        h = self.repo.func(t[1], required=False)
+        if h is None or h.cls is not None or 'SortedParameters' in h.name:
+            return t
+        it = Interp(self.repo, Policy(inline=_no_inline))
+        ps = [p for p in it.run(h) if p.status == 'return']
+        if len(ps) != 1 or any(e.kind in ('mut', 'store_attr', 'del_attr') for e in ps[0].effects):
+            return t
+        b = _bind(h, t[2], t[3])
+        if b is None:
+            return t
+        for k_, v_ in it.obj_init.items():
+            self.interp.obj_init.setdefault(k_, v_)      # (the displays the helper builds: `[]`, `{}`)
+
+        def subst(x):
+            if not isinstance(x, tuple):
+                return x
+            if len(x) == 2 and x[0] == 'P' and x[1] in b:
+                return b[x[1]]
+            return tuple(subst(y) for y in x)
+        return subst(ps[0].value)
+
     # -- flags: which parameter guards which star ---------------------------
     def flag_roles(self):
         """derive (flagVP, flagVK) parameter terms from the stars signature:
@@ -101,7 +127,7 @@ class EmbedModel(object):
         args = self.merger_call.args
         if len(args) != 2:
             raise Inconclusive('_embed: _Merger called with %d operands' % len(args))
-        right = args[1]
+        right = self._expand_helper(args[1])
         roles = {}
         if right[0] == 'C' and 'SortedParameters' in str(right[1]) and len(right[2]) == 6:
             items = right[2]
@@ -822,3 +848,69 @@ def rule_embed_sources(check, model, rules):
         else:
             check.inconclusive(rules['arith'], site(None, dep[-1].node), "'+depths' value not understood: %s" % show(val)[:200], key=key)
     check.floor(rules['union'], 'paths of _embed', n, 10)
+
+
+# ---------------------------------------------------------------------------
+# the accumulator of embed()'s fold is a plain tuple
+
+def _namedtuple_fields(repo, name='SortedParameters'):
+    m = repo.modules.get('_signatures')
+    for v in (m.assigns.get(name) or []):
+        if isinstance(v, ast.Call) and norm(v.func).endswith('namedtuple') and len(v.args) >= 2:
+            f = v.args[1]
+            if isinstance(f, ast.Constant) and isinstance(f.value, str):
+                return f.value.replace(',', ' ').split()
+            if isinstance(f, (ast.List, ast.Tuple)):
+                return [e.value for e in f.elts if isinstance(e, ast.Constant)]
+    return []
+
+
+def rule_accumulator_by_position(check, rule):
+    """embed() folds `_embed` over its inputs and hands each result back as the next `outer`.  `_embed` returns a plain tuple,
+    so from the second step on `outer` has positions but no field names: reading `outer.varargs` (in `_embed` or in a helper it
+    passes `outer` to) raises AttributeError -- not a ValueError -- for every embed() of three or more signatures, although
+    it works for two (the first `outer` comes from sort_params, a named tuple)."""
+    repo = check.repo
+    fi = repo.func(SIG + ':_embed')
+    check.analysed(fi)
+    fields = set(_namedtuple_fields(repo))
+    if not fields:
+        check.inconclusive(rule, site(None, fi.node), 'field names of SortedParameters not found', key='accumulator|fields')
+        return
+    # does every return of _embed build the named tuple?  then field access is fine
+    rets = [n for n in ast.walk(fi.node) if isinstance(n, ast.Return) and n.value is not None]
+    named = rets and all(isinstance(r.value, ast.Call) and norm(r.value.func).split('.')[-1] == 'SortedParameters' for r in rets)
+    outer = fi.params()[0][0]
+    key = '_signatures:_embed|accumulator'
+    if named:
+        check.holds(rule, site(None, fi.node), '_embed returns SortedParameters(...): the accumulator keeps its field names', key=key)
+        return
+    bad = []
+
+    def scan(fn, pname, where):
+        for n in ast.walk(fn.node):
+            if isinstance(n, ast.Attribute) and isinstance(n.value, ast.Name) and n.value.id == pname and n.attr in fields \
+                    and isinstance(n.ctx, ast.Load):
+                bad.append((fn, n, where))
+    scan(fi, outer, '_embed')
+    for c in ast.walk(fi.node):
+        if isinstance(c, ast.Call) and isinstance(c.func, ast.Name):
+            h = fi.module.funcs.get(c.func.id)
+            if h is None or h is fi:
+                continue
+            hp = h.params()[0]
+            for i, a in enumerate(c.args):
+                if isinstance(a, ast.Name) and a.id == outer and i < len(hp):
+                    check.analysed(h)
+                    scan(h, hp[i], h.name)
+            for kw in c.keywords:
+                if isinstance(kw.value, ast.Name) and kw.value.id == outer and kw.arg in hp:
+                    scan(h, kw.arg, h.name)
+    if bad:
+        for fn, n, where in bad[:3]:
+            check.violation(rule, '%s %s' % (fn.loc(n), fn.key), '%s reads %s by field name, but from the second fold step on the outer operand is the '
+                            'plain tuple _embed returned: AttributeError for every embed() of three or more signatures'
+                            % (where, norm(n)), key=key + '|' + norm(n), witness="embed(s('a, *args, **kwargs'), s('b, *args, **kwargs'), s('c'))")
+    else:
+        check.holds(rule, site(None, fi.node), 'the outer operand is only taken apart by position (it is a plain tuple from the second fold step on)',
+                    key=key)
